@@ -61,6 +61,13 @@ var splices = []splice{
 	{"for-assignment-post", "@for(k = 0; k < 2; k = k + 1)X@else Y@end", "XX"},
 	{"for-without-post", "@for(k = 0; k < 2;){{ k = k + 1 }}X@else Y@end", "XX"},
 	{"each-else", "@each(v in [])X@else Y@end", " Y"},
+	// round 16: parentheses and brackets inside an object literal of a print, then a directive with parentheses: the text
+	// behind the directive is text again only if every counter of the code segment went back to where it was
+	{"object-paren-value-then-if", "{{ {a: (1)}.a }}|@if(true)X@end", "1|X"},
+	{"object-call-value-then-each", "{{ {n: 'ab'.len()}.n }}@each(v in [1])X@end", "2X"},
+	{"object-nested-parens-then-if-else", "{{ {a: {b: ((2))}}.a.b }}@if(false)X@else Y@end", "2 Y"},
+	{"array-paren-element-then-if", "{{ [(1), {a: (2)}.a].len() }}@if((true))X@end", "2X"},
+	{"if-object-cond-then-if", "@if({a: (true)}.a)X@end@if(true)Z@end", "XZ"},
 }
 
 func init() {
